@@ -95,3 +95,24 @@ def lookupAddr (m : AddrMap) (k : Kind) (a : Octets) : Option (Option Nat) :=
   if isKind k a then some (findKey m a) else none
 
 end IrohModel.C18
+
+namespace IrohModel.C18
+
+/-- What `to_transport_addr` (socket/remote_map.rs) yields. -/
+inductive Transport where
+  | ip
+  | relay (key : Nat)
+  | custom (key : Nat)
+deriving DecidableEq, Repr
+
+/-- `to_transport_addr(addr, relay_addrs, custom_addrs)`: classify the socket address, then
+translate a relay / custom mapped address back through the corresponding table; a mixed
+(endpoint-id) mapped address has no transport address; an unknown mapped address gives `none`. -/
+def toTransport (relay custom : AddrMap) (isV4 : Bool) (a : Octets) : Option Transport :=
+  match classify isV4 a with
+  | .mixed => none
+  | .relay => (findKey relay a).map .relay
+  | .custom => (findKey custom a).map .custom
+  | .ip => some .ip
+
+end IrohModel.C18
